@@ -1573,6 +1573,13 @@ class Interp:
                 speclib._WITNESS[:] = [self.eval_spec(w, fr) for w in wit]
             try:
                 g = self.eval_spec(inv, fr)
+            except Unsupported as u:
+                if 'unknown name in spec' not in str(u):
+                    raise
+                # the clause names a local that no longer exists (e.g. a manual counter replaced by enumerate): it is neither
+                # proved nor assumed - the proof has to get by without it
+                self.trusted_used.add('invariant clause dropped (names a local that no longer exists): %s' % inv[:80])
+                continue
             finally:
                 speclib._WITNESS[:] = []
             self.oblige('%s.inv%d.%s' % (tag, n, phase), g, 'invariant', line, note=inv)
@@ -1600,7 +1607,12 @@ class Interp:
 
     def assume_invariants(self, spec, fr):
         for inv in spec.get('invariant', []):
-            g = self.eval_spec(inv, fr)
+            try:
+                g = self.eval_spec(inv, fr)
+            except Unsupported as u:
+                if 'unknown name in spec' not in str(u):
+                    raise
+                continue
             self.assume(g if not is_symbolic(g) else ops.z3bool(g))
 
     def modified_in(self, body, fr):
